@@ -188,8 +188,12 @@ Definition setd (d : field -> bool) (f : field) (b : bool) : field -> bool :=
 Definition a0 : astate := mka (fun _ => false) [].
 Definition atop : astate := mka (fun _ => true) [].
 
+(* the same function, re-tabulated so that nested joins do not re-evaluate their operands *)
+Definition tabulate (d : field -> bool) : field -> bool :=
+  let t := map d all_fields in fun f => nth (field_idx f) t false.
+
 Definition join (a b : astate) : astate :=
-  mka (fun f => dirty a f || dirty b f) (filter (fun x => smem x (sorig b)) (sorig a)).
+  mka (tabulate (fun f => dirty a f || dirty b f)) (filter (fun x => smem x (sorig b)) (sorig a)).
 
 (* a "below" b: b promises less *)
 Definition aleb (a b : astate) : bool :=
@@ -222,7 +226,7 @@ Fixpoint analyse (p : prog) (a : astate) {struct p} : astate * list astate :=
     let (a1, f1) := analyse p1 a in
     let (a2, f2) := analyse p2 a in (join a1 a2, f1 ++ f2)
   | Loop _ body =>
-    let inv := stabilise 30 (fun x => fst (analyse body x)) a in
+    let inv := stabilise (14 + length (sorig a)) (fun x => fst (analyse body x)) a in
     let (e, fs) := analyse body inv in
     if aleb e inv && aleb a inv then (inv, fs) else (atop, [atop])
   end.
